@@ -172,6 +172,78 @@ pub fn run_case(ctx: &Ctx, c: &Case) -> Vec<Viol> {
     out
 }
 
+/// The same histories against a real, freshly handshaken PeerCrypto pair, ticked through
+/// PeerCrypto::every_second; the receiver is the handshake initiator (its handshake object lingers for 60 s)
+/// or the responder.
+pub fn run_pc_case(ctx: &Ctx, receiver_is_initiator: bool, ops: &[Op]) -> Vec<Viol> {
+    ctx.eval();
+    let cj = || json!({"kind": "window-pc", "receiver_is_initiator": receiver_is_initiator, "ops": ops});
+    let mut out = vec![];
+    let r = catch(|| {
+        let mut sim = crate::sim::PairSim::simple(None);
+        let recv = 0usize;
+        sim.init(if receiver_is_initiator { 0 } else { 1 });
+        sim.settle();
+        if !sim.both_ready() {
+            return Some(Viol::new("window-pc-setup", "handshake failed".to_string(), cj()));
+        }
+        let mut stored: Vec<(Vec<u8>, Vec<u8>)> = vec![];
+        let mut model = WindowRef::default();
+        for (si, op) in ops.iter().enumerate() {
+            match *op {
+                Op::Seal => {
+                    if let Ok(x) = sim.seal_probe(1 - recv) {
+                        stored.push(x);
+                    }
+                }
+                Op::Tick => {
+                    sim.tick(recv);
+                    sim.inflight.clear(); // rotation is not part of these histories
+                    model.ticks += 1;
+                }
+                Op::Deliver(k) => {
+                    let k = k as usize;
+                    if k >= stored.len() {
+                        continue;
+                    }
+                    let n = sim.events.len();
+                    let res = sim.feed(recv, &stored[k].0.clone());
+                    sim.events.truncate(n);
+                    let thr = model.threshold(0);
+                    let expect = thr.map(|m| k > m).unwrap_or(true);
+                    let ok = matches!(res, Ok("message"));
+                    if ok != expect {
+                        return Some(Viol::new(
+                            if ok { "replay-accepted-outside-window" } else { "fresh-or-in-window-datagram-rejected" },
+                            format!(
+                                "PeerCrypto level (receiver is the {}), step {}: datagram #{} {} but the history says {} (ticks {}, threshold {:?})",
+                                if receiver_is_initiator { "handshake initiator" } else { "responder" },
+                                si, k, if ok { "accepted" } else { "rejected" }, if expect { "accept" } else { "reject" }, model.ticks, thr
+                            ),
+                            cj(),
+                        ));
+                    }
+                    if ok {
+                        model.accepted.push((0, k, model.ticks));
+                    }
+                }
+                _ => {}
+            }
+        }
+        None
+    });
+    match r {
+        Err(p) => out.push(Viol::new(format!("window-pc-{}", p.sig()), p.msg, cj())),
+        Ok(Some(v)) => out.push(v),
+        Ok(None) => {
+            if ops.iter().filter(|o| **o == Op::Tick).count() >= 2 {
+                ctx.nontrivial(&("pc", receiver_is_initiator, ops));
+            }
+        }
+    }
+    out
+}
+
 const ALPHABET: [Op; 9] = [Op::Seal, Op::Tick, Op::Deliver(0), Op::Deliver(1), Op::Deliver(2), Op::Deliver(3), Op::Deliver(4), Op::Forge(0), Op::Rotate];
 
 fn op_strategy() -> impl Strategy<Value = Op> {
@@ -274,11 +346,56 @@ pub fn run(ctx: &Ctx) {
         v
     });
     ctx.subspace("proptest histories up to length 400, recent-biased re-deliveries, rotations", n as u64, false);
+    // PeerCrypto level: all canonical histories of length 6 over {seal, tick, deliver 0..2}, both receiver roles
+    let mut hist: Vec<Vec<Op>> = vec![];
+    fn ext(p: &mut Vec<Op>, sealed: u8, depth: usize, out: &mut Vec<Vec<Op>>) {
+        if p.len() == depth {
+            out.push(p.clone());
+            return;
+        }
+        for op in [Op::Seal, Op::Tick, Op::Deliver(0), Op::Deliver(1), Op::Deliver(2)] {
+            let mut s2 = sealed;
+            match op {
+                Op::Seal => {
+                    if sealed >= 3 {
+                        continue;
+                    }
+                    s2 += 1;
+                }
+                Op::Deliver(k) => {
+                    if k >= sealed {
+                        continue;
+                    }
+                }
+                _ => {}
+            }
+            p.push(op);
+            ext(p, s2, depth, out);
+            p.pop();
+        }
+    }
+    let pc_depth: usize = ctx.tier.pick(6, 8);
+    ext(&mut vec![], 0, pc_depth, &mut hist);
+    let nh = hist.len() as u64;
+    ctx.par_items(&hist, |_, ops| {
+        for role in [false, true] {
+            let v = run_pc_case(ctx, role, ops);
+            ctx.report(v);
+        }
+    });
+    ctx.subspace(&format!("PeerCrypto level: all canonical histories of length {} over {{seal, tick, deliver 0..2}} x receiver role", pc_depth), nh * 2, true);
+
     crate::props::node_level::c03_node(ctx);
 }
 
 pub fn replay(ctx: &Ctx, case: &Value) {
     match case["kind"].as_str() {
+        Some("window-pc") => {
+            if let Ok(ops) = serde_json::from_value::<Vec<Op>>(case["ops"].clone()) {
+                let v = run_pc_case(ctx, case["receiver_is_initiator"].as_bool().unwrap_or(false), &ops);
+                ctx.report(v);
+            }
+        }
         Some("window") => {
             if let Ok(c) = serde_json::from_value::<Case>(case["case"].clone()) {
                 let v = run_case(ctx, &c);
